@@ -196,7 +196,11 @@ func runCheck(o *checkOpts) int {
 
 	var units []*Unit
 	for _, c := range todo {
-		fn := e.fnByKey[c.Key()]
+		fnKeyName := c.Key()
+		if i := strings.Index(fnKeyName, "~"); i >= 0 {
+			fnKeyName = fnKeyName[:i] // contract variant: same function, different semantics options
+		}
+		fn := e.fnByKey[fnKeyName]
 		u := &Unit{c: c, name: shortUnit(c)}
 		if fn == nil {
 			u.err = "binding: no function " + c.Key() + " in the current tree"
